@@ -260,6 +260,23 @@ func ruleOverlapAlign(w *World, r *Report) {
 				good = true
 			}
 		}
+		if !good {
+			// identical arguments overlap trivially: `if id1 == id2 { return true, nil }`
+			if k, isK := resolve(ret.Results[0]).(*ssa.Const); isK && k.Value != nil && k.Value.String() == "true" {
+				for _, blk := range f.Blocks {
+					t, _, ifi := ifSuccs(blk)
+					if ifi == nil {
+						continue
+					}
+					if c, isC := ifi.Cond.(*ssa.BinOp); isC && c.Op == token.EQL {
+						px, py := paramIndex(f, resolve(c.X)), paramIndex(f, resolve(c.Y))
+						if px >= 0 && py >= 0 && px != py && (t == ret.Block() || blockDominatedByEdge(f, blk, t, ret.Block())) {
+							good = true
+						}
+					}
+				}
+			}
+		}
 		if good {
 			r.add("MINSEL", key, w.Pos(ret.Pos()), Discharged, "answer = equality of the two single zoom-aligned IDs (both results are singletons because neither axis is refined)")
 		} else {
